@@ -778,7 +778,7 @@ pub fn random_limit(rng: &mut Rng) -> LimCase {
 pub fn run(opts: &Opts) -> i32 {
     let rep = Report::new(
         opts,
-        "input_and_configuration_enumeration",
+        "exploration",
         "A: v3, v5 and combined servers x every first packet (all packet templates, 216 CONNECT name/level/flag variations) x 5 handshake \
          outcomes x trailing packets with/after the first; B: combined server, CONNECT level 4/5 + PUBLISH + PINGREQ cut at every subset of the \
          first 15 byte boundaries (quick: all subsets of at most 2 cuts plus random ones), plus the sniffing codec against a reference parser on \
